@@ -564,3 +564,71 @@ Theorem C11_shakashaka_solve_reports : forall oracle, oracle_sound_on oracle -> 
   solve_reports oracle st (seq 0 (h * w)) (rules_shakashaka (List.cons (List.cons (Z.of_nat h) (List.cons (Z.of_nat w) nil)) (List.cons grid nil))).
 Proof. exact shakashaka_solve_reports. Qed.
 Print Assumptions C11_shakashaka_solve_reports.
+
+(* Tier 1, yinyang, every board shape and every clue layout: the program posted by solve_yinyang (model Puzzle/Yinyang.v -
+   graph.active_vertices_connected = the model of property C04 called twice, on the grid and on its negation (NOT-nodes as
+   activity flags), the two "no monochrome 2x2" constraints, the clue constraints and the three auxiliary constraints the
+   published rules do not state: no 2x2 checkerboard (two constraints) and at most two colour changes along the border walk -
+   tied to the Python by program capture) has a model reading as [ans] exactly when [ans] obeys the published rules.
+   The auxiliary constraints follow from the rules by planarity only; C11_yinyang_aux_implied is that statement, proved for
+   every board size by a crossing-parity argument (Puzzle/YinyangPlanar.v, YinyangBorder.v, YinyangAuxProofs.v; bounded
+   re-checks by kernel computation on all small boards are in Puzzle/YinyangBounded.v, outside this file's closure). *)
+From Cspuz Require Import Graph.Avc Puzzle.Rules_yinyang Puzzle.Yinyang Puzzle.YinyangAux Puzzle.YinyangLemmas
+     Puzzle.YinyangAuxProofs Puzzle.YinyangProofs.
+Theorem C11_yinyang_exact : forall h w grid st ans,
+  solve_yinyang_model (List.cons (List.cons (Z.of_nat h) (List.cons (Z.of_nat w) nil)) (List.cons grid nil)) = Ok st ->
+  ((exists en, model_of gsem_avc en st /\ reads st en (seq 0 (h * w)) = ans)
+   <-> rules_yinyang (List.cons (List.cons (Z.of_nat h) (List.cons (Z.of_nat w) nil)) (List.cons grid nil)) ans = true).
+Proof. exact yinyang_exact. Qed.
+Print Assumptions C11_yinyang_exact.
+
+Theorem C11_yinyang_model_defined : forall h w grid,
+  (exists st, solve_yinyang_model (List.cons (List.cons (Z.of_nat h) (List.cons (Z.of_nat w) nil)) (List.cons grid nil)) = Ok st)
+  <-> (0 < h * w <= length grid)%nat.
+Proof. exact yinyang_model_defined. Qed.
+Print Assumptions C11_yinyang_model_defined.
+
+Theorem C11_yinyang_aux_implied : forall h w given ans,
+  rules_yinyang (List.cons (List.cons (Z.of_nat h) (List.cons (Z.of_nat w) nil)) (List.cons given nil)) ans = true ->
+  yy_aux h w ans = true.
+Proof. exact yinyang_aux_implied. Qed.
+Print Assumptions C11_yinyang_aux_implied.
+
+Theorem C11_yinyang_model_exact : forall h w grid st ans,
+  solve_yinyang_model (List.cons (List.cons (Z.of_nat h) (List.cons (Z.of_nat w) nil)) (List.cons grid nil)) = Ok st ->
+  ((exists en, model_of gsem_avc en st /\ reads st en (seq 0 (h * w)) = ans)
+   <-> rules_yinyang (List.cons (List.cons (Z.of_nat h) (List.cons (Z.of_nat w) nil)) (List.cons grid nil)) ans
+       && yy_aux h w ans = true).
+Proof. exact yinyang_model_exact. Qed.
+Print Assumptions C11_yinyang_model_exact.
+
+(* Tier 1, castle_wall, every board shape (height, width >= 1: single-row and single-column boards included; the
+   model - like the Python - rejects height <= 0 or width <= 0) and every clue layout (kind 0 = no clue, 1..4 =
+   arrows ^ v < > with any integer as number, other kinds = clue cell without arrow; side 1 = white, 2 = black).
+   Hypothesis cw_wf: only clue cells are marked white / black (the encoding of Rules_castle_wall.v: "side 0 = gray
+   / not a clue"); it cannot be dropped (CastleWallProofs.castle_wall_wf_needed), and C11_castle_wall_program says
+   what the posted program means without it.  Single-loop rule through C06 (CastleWallCompose.cycle_frame_compose_aux:
+   auxiliary booleans declared AFTER the graph call; the post-call state is closed under later variables).  Inside /
+   outside: the is_inside flags are determined by their recurrence (parity of horizontal segments above a unit
+   square), proved equal to the rule file's parity of vertical segments right of the cell for every cell off the
+   line once every lattice point has even degree - a discrete 2-colouring argument, no Jordan curve theorem.
+   Programs of this module contain no native graph operator. *)
+From Cspuz Require Import Lib.PyErr Puzzle.CycleFrameBase Puzzle.Rules_castle_wall Puzzle.CastleWall Puzzle.CastleWallProofs.
+Theorem C11_castle_wall_exact : forall h w kind num side st ans,
+  cw_wf h w kind side = true ->
+  solve_castle_wall_model (List.cons (List.cons (Z.of_nat h) (List.cons (Z.of_nat w) nil))
+                             (List.cons kind (List.cons num (List.cons side nil)))) = Ok st ->
+  ((exists en, model_of no_graph en st /\ reads st en (seq 0 (h * (w - 1) + (h - 1) * w)) = ans)
+   <-> rules_castle_wall (List.cons (List.cons (Z.of_nat h) (List.cons (Z.of_nat w) nil))
+                            (List.cons kind (List.cons num (List.cons side nil)))) ans = true).
+Proof. exact castle_wall_exact. Qed.
+Print Assumptions C11_castle_wall_exact.
+
+Theorem C11_castle_wall_program : forall fh fw kind num side st ans,
+  solve_castle_wall_model (List.cons (List.cons (Z.of_nat (S fh)) (List.cons (Z.of_nat (S fw)) nil))
+                             (List.cons kind (List.cons num (List.cons side nil)))) = Ok st ->
+  ((exists en, model_of no_graph en st /\ reads st en (seq 0 (frame_n fh fw)) = ans)
+   <-> Nat.eqb (length ans) (frame_n fh fw) && forallb is01 ans &&
+       single_loop_b (lattice (S fh) (S fw)) (fun k => isb (getz ans k)) && cw_local fh fw kind num side ans = true).
+Proof. exact castle_wall_program. Qed.
+Print Assumptions C11_castle_wall_program.
